@@ -467,7 +467,9 @@ class IH5Dataset(IH5Node):
         if self._cidx != self._last_idx:
             raise ValueError(f"Cannot set '{key}', node is not from the latest patch!")
         # if we're in the latest patch, allow writing as usual (pass through)
-        self._files[-1][self._gpath][key] = val  # type: ignore
+        node = self._files[-1][self._gpath]
+        self._guard_value(val, node.dtype, node.shape)
+        node[key] = val  # type: ignore
 
 
 class IH5AttributeManager(IH5InnerNode):
